@@ -95,7 +95,9 @@ def build_decl(d, registry=None):
     base = d["base"]
     parent = None
     if d.get("parent") is not None:
-        parent = build_decl(dict(d["parent"], base=base, name=d["parent"].get("name") or name + "Base"), registry)
+        # letter-case handling of a field is fixed when its class is declared: the parent is declared with the same choice
+        popts = {k: v for k, v in (d.get("options") or {}).items() if k == "case_insensitive"}
+        parent = build_decl(dict(d["parent"], base=base, name=d["parent"].get("name") or name + "Base", options=popts), registry)
     if base == "deco":
         cls = type(name, (parent,) if parent is not None else (), ns)
         cls = utype.dataclass(cls, options=opts, set_class_properties=True, contains=True, eq=True)
